@@ -114,11 +114,38 @@ var subC09 = harness.NewSub("c09-reencode-stable", func(c c09Case, d harness.Dia
 
 // genAcceptedish draws inputs with a high acceptance rate that are mostly not canonical.
 func genAcceptedish(t *rapid.T, big bool) (string, []byte) {
-	hi := 9
+	hi := 10
 	if big {
-		hi = 10
+		hi = 11
 	}
 	switch rapid.IntRange(0, hi).Draw(t, "c09.kind") {
+	case 10:
+		// an XR report block carrying surplus words inside its own block length (a receiver
+		// skips what it does not understand; RFC 3611 blocks are self-delimiting)
+		x := gen.XR(t, 4)
+		for len(x.Blocks) == 0 {
+			x = gen.XR(t, 4)
+		}
+		e, err := m.Encode(m.Packet{Kind: m.KXR, XR: x}, nil)
+		if err != nil {
+			panic(err)
+		}
+		b := e.B
+		// walk to a drawn block
+		target := rapid.IntRange(0, len(x.Blocks)-1).Draw(t, "xr.block")
+		pos := 8
+		for i := 0; i < target; i++ {
+			pos += 4 * (int(b[pos+2])<<8 | int(b[pos+3]) + 1)
+		}
+		words := int(b[pos+2])<<8 | int(b[pos+3])
+		end := pos + 4*(words+1)
+		k := rapid.IntRange(1, 3).Draw(t, "xr.surplus")
+		extra := gen.BytesN(t, 4*k, "xr.surplus.bytes")
+		nb := append(append(append([]byte(nil), b[:end]...), extra...), b[end:]...)
+		nb[pos+2], nb[pos+3] = byte((words+k)>>8), byte(words+k)
+		w := len(nb)/4 - 1
+		nb[2], nb[3] = byte(w>>8), byte(w)
+		return "xr-block-with-surplus-words", nb
 	case 8, 9:
 		// RFC 3550 padding on any packet type: P bit set, optional extra words, and a final
 		// octet that looks like a padding count (decoders differ in whether they honour it)
@@ -174,7 +201,7 @@ func genAcceptedish(t *rapid.T, big bool) (string, []byte) {
 	case 4:
 		_, b := genTWCCBytes(t)
 		return "twcc-targeted", b
-	case 10:
+	case 11:
 		return "big-frame", gen.BigFrame(t)
 	default:
 		k, b := gen.HostileBytes(t, false)
